@@ -158,6 +158,17 @@ CHECKS = {
             'arity <= 2/3 x list-valued argument position is checked for deep-equality of host values before/after.',
             'Trusted: the heap fingerprint (stdlib objects opaque); fork() to restore a state; clock/random seams. PLY '
             'leftovers are part of the state key, not of the oracle.', 'DESIGN.md §5 C02'),
+    'C03': ('stateless schedule exploration of two real threads (one parser each) under a cooperative scheduler with '
+            'iterative preemption bounding at source-line granularity, plus explicit-state exploration of nested '
+            'evaluations interposed at every callback invocation and of binding histories on sibling parsers; ' + K2,
+            'For each ordered pair of formulas every schedule with <= 1 preemption (all pairs), <= 2 (selected pairs) and <= '
+            '3 (two pairs, thorough) over ~150-350 scheduling points is executed on real threads and each outcome compared '
+            'with the solo outcome; replaying a prefix must reproduce the recorded points (divergence is a hard error). '
+            'Nested evaluation is interposed at every callback invocation of 7 outer templates for 10 inner formulas on a '
+            'pre-built parser, a parser built in the callback and the same parser, to depth 2.',
+            'Trusted: sys.settrace line events in hotxlfp files + ply lexer entry points as the scheduling points (an update '
+            'lost inside one source line is outside the model); the baton scheduler (one semaphore per thread).',
+            'DESIGN.md §5 C03'),
 }
 
 NOT_YET = 'check not built yet in this session (see DESIGN.md §5 for the planned bounded-exhaustive check)'
